@@ -9,6 +9,7 @@ use crate::pipeprops;
 use crate::pipesim;
 use crate::readsim;
 use crate::tfbsim;
+use crate::textsim;
 use crate::report::{RunReport, RunStats};
 use crate::rng::{hash_bytes, Rng};
 
@@ -21,9 +22,11 @@ pub enum AnyCase {
     Enc(readsim::EncCase),
     Tfb(tfbsim::TfbCase),
     Shuttle(tfbsim::ShuttleCase),
+    Text(textsim::TextCase),
+    Sql(textsim::SqlCase),
 }
 
-pub const ALL_PROPS: &[&str] = &["C01", "C02", "C03", "C04", "C05", "C06", "C10", "C07", "C08", "C09", "C11", "C12", "C13", "C14"];
+pub const ALL_PROPS: &[&str] = &["C01", "C02", "C03", "C04", "C05", "C06", "C10", "C07", "C08", "C09", "C11", "C12", "C13", "C14", "C18", "C19"];
 
 pub struct Budget {
     pub quick_runs: u64,
@@ -44,6 +47,14 @@ pub fn budget(prop: &str) -> Budget {
             quick_runs: 640,
             thorough_runs: 40_000,
         },
+        "C18" => Budget {
+            quick_runs: 30_000,
+            thorough_runs: 1_500_000,
+        },
+        "C19" => Budget {
+            quick_runs: 3_000,
+            thorough_runs: 60_000,
+        },
         "C12" => Budget {
             quick_runs: 8_000,
             thorough_runs: 200_000,
@@ -56,6 +67,14 @@ pub fn budget(prop: &str) -> Budget {
             quick_runs: 20_000,
             thorough_runs: 600_000,
         },
+    }
+}
+
+/// Address-space cap of the worker processes (bytes).
+pub fn mem_cap(prop: &str) -> u64 {
+    match prop {
+        "C19" => 1 << 30,
+        _ => 6 << 30,
     }
 }
 
@@ -103,6 +122,8 @@ pub fn gen_case(prop: &str, seed: u64, idx: u64, tier: &str) -> AnyCase {
         "C03" | "C04" => return AnyCase::Read(readsim::gen_read_case(&mut rng, prop)),
         "C05" => return AnyCase::Read(readsim::gen_c05(&mut rng, idx)),
         "C10" => return AnyCase::Enc(readsim::gen_c10(&mut rng)),
+        "C18" => return AnyCase::Text(textsim::gen_text_case(&mut rng)),
+        "C19" => return AnyCase::Sql(textsim::gen_sql(&mut rng, idx)),
         "C12" => {
             if idx % 40 == 0 {
                 return AnyCase::Shuttle(tfbsim::ShuttleCase {
@@ -173,6 +194,8 @@ pub fn run_case(prop: &str, case: &AnyCase) -> RunReport {
         AnyCase::Enc(ec) => readsim::run_c10(ec),
         AnyCase::Tfb(tc) => tfbsim::run_tfb(tc),
         AnyCase::Shuttle(sc) => tfbsim::run_shuttle(sc),
+        AnyCase::Text(tc) => textsim::run_text_case(tc),
+        AnyCase::Sql(sc) => textsim::run_sql(sc),
         AnyCase::Pipe(pc) if prop == "C13" => pipeprops::run_c13(pc),
         AnyCase::Pipe(pc) => {
             let out = pipesim::run_write(pc, false);
@@ -326,6 +349,8 @@ pub fn shrink(case: &AnyCase) -> Vec<AnyCase> {
         AnyCase::Enc(e) => readsim::shrink_c10(e).into_iter().map(AnyCase::Enc).collect(),
         AnyCase::Tfb(t) => tfbsim::shrink_tfb(t).into_iter().map(AnyCase::Tfb).collect(),
         AnyCase::Shuttle(_) => vec![],
+        AnyCase::Text(t) => textsim::shrink_text(t).into_iter().map(AnyCase::Text).collect(),
+        AnyCase::Sql(q) => textsim::shrink_sql(q).into_iter().map(AnyCase::Sql).collect(),
     }
 }
 
@@ -344,7 +369,7 @@ pub fn explicit_schedule(prop: &str, case: &AnyCase) -> AnyCase {
             }
         }
         AnyCase::Multi(m) => AnyCase::Multi(pipeprops::explicit_c11(m)),
-        AnyCase::Enum(_) | AnyCase::Read(_) | AnyCase::Enc(_) | AnyCase::Tfb(_) => case.clone(),
+        AnyCase::Enum(_) | AnyCase::Read(_) | AnyCase::Enc(_) | AnyCase::Tfb(_) | AnyCase::Text(_) | AnyCase::Sql(_) => case.clone(),
         AnyCase::Shuttle(sc) => AnyCase::Shuttle(tfbsim::explicit_shuttle(sc)),
     }
 }
